@@ -36,7 +36,7 @@ ASSUMPTIONS = ['callbacks are described by what they do (attach MetaData, rename
 
 
 def run(ctx):
-    typed.run_cases(ctx, ctx.n(6, 120), 60, ID)
+    typed.run_cases(ctx, ctx.n(30, 200), 60, ID)
 
 
 def replay(ctx, case):
